@@ -57,9 +57,16 @@ def paddedLen (n NFFT : Nat) : Nat := if n < NFFT then NFFT else n
     `sliding_window_view(x, NFFT)[::step]`; `step = NFFT − noverlap > 0` -/
 def nSeg (n NFFT step : Nat) : Nat := (paddedLen n NFFT - NFFT) / step + 1
 
-/-- bin `k` of the FFT of the windowed segment of `x` starting at `s` -/
+/-- array read with the same zero-padding convention as `getK` -/
+def getA (xs : Array K) (i : Nat) : K := xs.getD i (ofNat 0)
+
+/-- bin `k` of the FFT of the windowed segment of `x` starting at `s`.  The two lists are turned into
+    arrays once per segment (constant-time reads; `Lemmas/CohC.segFft_eq` shows this is
+    Σ_j w[j]·x[s+j]·twiddle(j·k) with the list reads `getK`) -/
 def segFft (w x : List K) (NFFT s k : Nat) : K :=
-  sumRange NFFT fun j => mul (mul (getK w j) (getK x (s + j))) (twiddle NFFT (j * k))
+  let wa := w.toArray
+  let xa := x.toArray
+  sumRange NFFT fun j => mul (mul (getA wa j) (getA xa (s + j))) (twiddle NFFT (j * k))
 
 /-- Σ window² as mlab computes it -/
 def sumW2 (w : List K) (NFFT : Nat) : K := sumRange NFFT fun j => mul (getK w j) (getK w j)
@@ -304,14 +311,20 @@ def getFreqs (Fs : Float) (n : Nat) : List Float :=
   let val := 1.0 / (n.toFloat * 1.0)
   (List.range (n / 2 + 1)).map fun k => (k.toFloat * val) * Fs
 
-/-- `np.searchsorted(f, v, 'left')` on an ascending list -/
-def searchLeft (f : List Float) (v : Float) : Nat := (f.takeWhile (· < v)).length
+/-- `np.searchsorted(f, v, 'left')` on an ascending list, over any carrier with a decidable `<`
+    (run at `Float`; `Lemmas/CohBounds` proves the band-selection property at `ℚ`) -/
+def searchLeftBy {α : Type} (lt : α → α → Bool) (f : List α) (v : α) : Nat := (f.takeWhile (fun x => lt x v)).length
 /-- `np.searchsorted(f, v, 'right')` -/
-def searchRight (f : List Float) (v : Float) : Nat := (f.takeWhile (· ≤ v)).length
+def searchRightBy {α : Type} (le : α → α → Bool) (f : List α) (v : α) : Nat := (f.takeWhile (fun x => le x v)).length
 
 /-- `utils.get_bounds(f, lb, ub)`; `ub = none` is Python's `None` -/
+def getBoundsBy {α : Type} (lt le : α → α → Bool) (f : List α) (lb : α) (ub : Option α) : Nat × Nat :=
+  (searchLeftBy lt f lb, match ub with | none => f.length | some u => searchRightBy le f u)
+
+def searchLeft (f : List Float) (v : Float) : Nat := searchLeftBy (fun a b => decide (a < b)) f v
+def searchRight (f : List Float) (v : Float) : Nat := searchRightBy (fun a b => decide (a ≤ b)) f v
 def getBounds (f : List Float) (lb : Float) (ub : Option Float) : Nat × Nat :=
-  (searchLeft f lb, match ub with | none => f.length | some u => searchRight f u)
+  getBoundsBy (fun a b => decide (a < b)) (fun a b => decide (a ≤ b)) f lb ub
 
 /-- `mlab.window_hanning(np.ones(N))` = `np.hanning(N)` -/
 def hanning (N : Nat) : List Float :=
